@@ -163,6 +163,20 @@ Definition mk_dlc (peer own : pn) (l2cap_peer_mtu : Z) : dlc :=
 Definition setup (ini rsp : pn) (mtu_i mtu_r : Z) : sys :=
   mkSys (mk_dlc (pn_wire rsp) ini mtu_r) (mk_dlc (pn_wire ini) rsp mtu_i) [] [] [] [] true.
 
+(* Multiplexer.acceptable_frame_size (fix D17i): a PN command whose N1 fails this test is
+   answered with DM, a PN response whose N1 fails it is treated like a DM; peer_mtu is the
+   L2CAP MTU the peer announced *)
+Definition acceptable (n peer_mtu : Z) : bool :=
+  (n <=? 32767) && (23 <=? Z.min n (peer_mtu - 5)).
+
+(* outcome of open_dlc as far as the frame sizes go: 0 the responder answers DM, 1 the
+   responder accepts but the initiator refuses the response (the responder keeps a DLC in
+   CONNECTING), 2 the data link comes up with the DLCs of [setup] *)
+Definition pn_negotiate (ini rsp : pn) (mtu_i mtu_r : Z) : Z :=
+  if negb (acceptable (pn_mfs (pn_wire ini)) mtu_i) then 0
+  else if negb (acceptable (pn_mfs (pn_wire rsp)) mtu_r) then 1
+  else 2.
+
 (* ---------- observables for the correspondence check ---------- *)
 Definition frame_obs (f : frame) : bool * list Z := (f_pf f, f_info f).
 Definition dlc_obs (d : dlc) := (d_mtu d, d_tx_credits d, d_rx_credits d, Z.of_nat (length (d_tx_buf d))).
